@@ -3,8 +3,9 @@ package harness
 // Suite "ovm" (property C14): random histories of key-change proposals, votes and end-blocks through the real
 // x/ovm message servers and the real ovm.EndBlocker; the same operations are replayed on lean/Sge/Ovm.lean.
 //
-// VERIF_OVM_FIXED=1 tells the model driver to run the variant that mirrors the tree after
-// repo_patches/ovm_key_governance.diff (use it when /repo has that patch applied).
+// The model has two variants (lean/Sge/Ovm.lean, `fixed`): the tree as it is, and the tree after
+// repo_patches/ovm_key_governance.diff. The suite probes two pure functions of /repo to see which tree it was
+// built against (ovmPatched) and tells the driver in the genesis line; VERIF_OVM_FIXED=0|1 overrides the probe.
 
 import (
 	"fmt"
@@ -17,7 +18,7 @@ import (
 	ovmtypes "github.com/sge-network/sge/x/ovm/types"
 )
 
-func init() { suites["ovm"] = runOvm }
+func init() { suites["ovm"] = runOvm; suites["ovm_scripted"] = runOvmScripted }
 
 const ovmExpiry int64 = 1800
 
@@ -100,29 +101,26 @@ func (x *ovmRun) keyName(dec string) string {
 	return "K?"
 }
 
-// monVotes: every proposal holds at most one vote per (decoded) key, only yes/no votes.
+// monVotes: the vote just accepted on proposal pid is the first vote of its (decoded) key and is yes or no.
 func (x *ovmRun) monVotes(s *ovmSnap, pid uint64) {
-	for _, p := range s.Props {
-		if p.Id != pid || p.Status != ovmtypes.ProposalStatus_PROPOSAL_STATUS_ACTIVE {
-			continue
+	p := s.find(ovmtypes.ProposalStatus_PROPOSAL_STATUS_ACTIVE, pid)
+	if p == nil || len(p.Votes) == 0 {
+		return
+	}
+	last := p.Votes[len(p.Votes)-1]
+	if last.Vote != ovmtypes.ProposalVote_PROPOSAL_VOTE_YES && last.Vote != ovmtypes.ProposalVote_PROPOSAL_VOTE_NO {
+		x.fail("one_vote_per_key", "vote-value-not-yes-no", "proposal %d holds vote value %d", p.Id, last.Vote)
+	}
+	dk := decodedKey(last.PublicKey)
+	for _, v := range p.Votes[:len(p.Votes)-1] {
+		if v.PublicKey == last.PublicKey {
+			x.fail("one_vote_per_key", "same-key-string-twice", "proposal %d holds two votes of string %d", p.Id, x.pool.ID(v.PublicKey))
+			return
 		}
-		seenStr := map[string]bool{}
-		seenKey := map[string]bool{}
-		for _, v := range p.Votes {
-			if v.Vote != ovmtypes.ProposalVote_PROPOSAL_VOTE_YES && v.Vote != ovmtypes.ProposalVote_PROPOSAL_VOTE_NO {
-				x.fail("one_vote_per_key", "vote-value-not-yes-no", "proposal %d holds vote value %d", p.Id, v.Vote)
-			}
-			dk := decodedKey(v.PublicKey)
-			if seenStr[v.PublicKey] {
-				x.fail("one_vote_per_key", "same-key-string-twice", "proposal %d holds two votes of string %d", p.Id, x.pool.ID(v.PublicKey))
-			} else if dk != "" && seenKey[dk] {
-				x.fail("one_vote_per_key", "same-key-two-encodings", "proposal %d holds two votes of key %s (second under string %d): %s",
-					p.Id, x.keyName(dk), x.pool.ID(v.PublicKey), voteStr(x.pool, p.Votes))
-			}
-			seenStr[v.PublicKey] = true
-			if dk != "" {
-				seenKey[dk] = true
-			}
+		if dk != "" && decodedKey(v.PublicKey) == dk {
+			x.fail("one_vote_per_key", "same-key-two-encodings", "proposal %d holds two votes of key %s (under strings %d and %d):%s",
+				p.Id, x.keyName(dk), x.pool.ID(v.PublicKey), x.pool.ID(last.PublicKey), voteStr(x.pool, p.Votes))
+			return
 		}
 	}
 }
@@ -227,18 +225,21 @@ func (x *ovmRun) monEndBlock(before, after *ovmSnap) {
 		n := len(reg)
 		need := ceilTwoThirds(n)
 		yes := map[string]bool{}
-		rawYes := 0
+		rawYes, regYesVotes := 0, 0
 		for _, v := range pb.Votes {
 			if v.Vote == ovmtypes.ProposalVote_PROPOSAL_VOTE_YES {
 				rawYes++
 				if dk := decodedKey(v.PublicKey); dk != "" && reg[dk] {
 					yes[dk] = true
+					regYesVotes++
 				}
 			}
 		}
 		if len(yes) < need {
 			class := "votes-of-removed-keys-counted"
-			if approvals > 0 {
+			if regYesVotes >= need {
+				class = "two-votes-of-one-key-counted"
+			} else if approvals > 0 {
 				class = "votes-of-keys-removed-in-same-block-counted"
 				if len(yes) >= ceilTwoThirds(len(distinctDecoded(before.Vault))) {
 					class = "majority-of-vault-size-before-the-block"
@@ -702,9 +703,36 @@ func (x *ovmRun) advance(s *ovmSnap) {
 	}
 }
 
+// ovmPatched probes the tree: does DecideResult ignore votes of unregistered keys, does genesis validation
+// reject one key in two encodings?
+func ovmPatched(pool *ovmPool, out *Out) bool {
+	vault := ovmtypes.KeyVault{PublicKeys: []string{pool.str[0][0], pool.str[1][0], pool.str[2][0], pool.str[3][0]}}
+	p := ovmtypes.PublicKeysChangeProposal{}
+	for k := 4; k < 7; k++ {
+		p.Votes = append(p.Votes, ovmtypes.NewVote(pool.str[k][0], ovmtypes.ProposalVote_PROPOSAL_VOTE_YES))
+	}
+	a := p.DecideResult(&vault) != ovmtypes.ProposalResult_PROPOSAL_RESULT_APPROVED
+	gs := ovmtypes.GenesisState{KeyVault: ovmtypes.KeyVault{PublicKeys: []string{pool.str[0][0], pool.str[0][2], pool.str[1][0], pool.str[2][0]}},
+		Params: ovmtypes.DefaultParams()}
+	b := gs.Validate() != nil
+	if a != b {
+		out.Count("variant.probes-disagree")
+		return false
+	}
+	return a
+}
+
 func runOvm(seed uint64, n int, out *Out) {
-	fixed := envInt("VERIF_OVM_FIXED", 0) == 1
 	pool := newOvmPool()
+	fixed := ovmPatched(pool, out)
+	if v := envInt("VERIF_OVM_FIXED", -1); v >= 0 {
+		fixed = v == 1
+	}
+	if fixed {
+		out.Count("variant.patched-tree")
+	} else {
+		out.Count("variant.tree-as-it-is")
+	}
 	base := NewEnv(1_000_000, 4)
 	baseCtx := base.Ctx
 	h0 := base.Height
@@ -767,5 +795,110 @@ func runOvm(seed uint64, n int, out *Out) {
 			x.endBlock()
 		}
 		out.Count("histories")
+	}
+}
+
+// ---------------------------------------------------------------------------------------------
+// scripted histories: exactly the histories of the counter-example theorems C14.X1 - C14.X5
+// (lean/SgeProofs/Lemmas/OvmExamples.lean), run on the real code with the same monitors.
+
+type ovmStep struct {
+	kind   byte // 'S', 'V', 'E'
+	now    int64
+	signer int
+	keys   []int // S: string ids
+	leader uint32
+	idx    uint32 // V
+	pid    uint64
+	vote   int64
+}
+
+func sS(now int64, signer int, keys []int, leader uint32) ovmStep {
+	return ovmStep{kind: 'S', now: now, signer: signer, keys: keys, leader: leader}
+}
+func sV(now int64, idx uint32, signer int, pid uint64, vote int64) ovmStep {
+	return ovmStep{kind: 'V', now: now, idx: idx, signer: signer, pid: pid, vote: vote}
+}
+func sE(now int64) ovmStep { return ovmStep{kind: 'E', now: now} }
+
+type ovmScript struct {
+	name  string
+	vault []int
+	steps []ovmStep
+}
+
+var ovmScripts = []ovmScript{
+	{"X1-removed-keys-same-block", []int{0, 8, 16, 24}, []ovmStep{
+		sS(10, 0, []int{0, 32, 40, 48}, 0), sS(10, 1, []int{8, 16, 24, 56}, 0),
+		sV(20, 1, 1, 1, 2), sV(20, 2, 2, 1, 2), sV(20, 3, 3, 1, 2),
+		sV(20, 1, 1, 2, 2), sV(20, 2, 2, 2, 2), sV(20, 3, 3, 2, 2), sE(30)}},
+	{"X2-removed-keys-earlier-block", []int{0, 8, 16, 24}, []ovmStep{
+		sS(10, 0, []int{0, 32, 40, 48}, 0), sS(10, 1, []int{8, 16, 24, 56}, 0),
+		sV(20, 1, 1, 1, 2), sV(20, 2, 2, 1, 2), sV(20, 3, 3, 1, 2),
+		sV(20, 1, 1, 2, 2), sV(20, 2, 2, 2, 2), sE(30), sV(40, 1, 4, 2, 2), sE(50)}},
+	{"X3-stale-vault-size", []int{0, 8, 16, 24}, []ovmStep{
+		sS(10, 0, []int{0, 8, 16, 24, 32}, 0), sS(10, 0, []int{0, 8, 16, 40}, 0),
+		sV(20, 0, 0, 1, 2), sV(20, 1, 1, 1, 2), sV(20, 2, 2, 1, 2),
+		sV(20, 0, 0, 2, 2), sV(20, 1, 1, 2, 2), sV(20, 2, 2, 2, 2), sE(30)}},
+	{"X4-double-vote", []int{1, 9, 17, 25}, []ovmStep{
+		sS(10, 0, []int{0, 8, 16, 24}, 0), sS(10, 0, []int{0, 8, 32, 40}, 0),
+		sV(20, 0, 0, 1, 2), sV(20, 1, 1, 1, 2), sV(20, 2, 2, 1, 2), sV(20, 0, 0, 2, 2), sE(30),
+		sV(40, 0, 0, 2, 2), sV(40, 1, 1, 2, 2), sE(50)}},
+	{"X5-duplicate-key", []int{0, 8, 16, 24}, []ovmStep{
+		sS(10, 0, []int{0, 2, 8, 16}, 1), sV(20, 0, 0, 1, 2), sV(20, 1, 1, 1, 2), sV(20, 2, 2, 1, 2), sE(30)}},
+}
+
+func runOvmScripted(_ uint64, _ int, out *Out) {
+	pool := newOvmPool()
+	fixed := ovmPatched(pool, out)
+	if v := envInt("VERIF_OVM_FIXED", -1); v >= 0 {
+		fixed = v == 1
+	}
+	base := NewEnv(1_000_000, 4)
+	baseCtx := base.Ctx
+	h0 := base.Height
+	str := func(id int) string { return pool.str[id/ovmVariants][id%ovmVariants] }
+	for h, sc := range ovmScripts {
+		if skipHist(h) {
+			continue
+		}
+		hctx, _ := baseCtx.CacheContext()
+		base.Ctx = hctx
+		x := &ovmRun{e: base, k: *base.App.OVMKeeper, pool: pool, out: out, r: NewRng(uint64(h)), h: h, everIn: map[int]bool{}}
+		x.srv = ovmkeeper.NewMsgServerImpl(x.k)
+		out.Op("N %d", h)
+		out.Impl("n %d", h)
+		var vault []string
+		for _, id := range sc.vault {
+			vault = append(vault, str(id))
+		}
+		x.k.SetKeyVault(base.Ctx, ovmtypes.KeyVault{PublicKeys: vault})
+		out.Op("G %d %d%s", b2i(fixed), len(vault), pool.IDs(vault))
+		out.Impl("r ok")
+		x.printState(x.snap())
+		height := h0
+		for _, st := range sc.steps {
+			if st.now != x.now {
+				height++
+			}
+			x.now = st.now
+			base.SetBlock(height, x.now)
+			switch st.kind {
+			case 'S':
+				m := &ovmSent{creator: 0, leader: st.leader}
+				for _, id := range st.keys {
+					m.keys = append(m.keys, str(id))
+				}
+				m.ticket, m.desc = pool.makeTicket(tkGood, st.signer, x.now+100, map[string]interface{}{"public_keys": m.keys, "leader_index": st.leader}, true)
+				x.sendSubmit(m)
+			case 'V':
+				m := &ovmSent{vote: true, creator: 0, idx: st.idx, pid: st.pid, vv: st.vote}
+				m.ticket, m.desc = pool.makeTicket(tkGood, st.signer, x.now+100, map[string]interface{}{"proposal_id": st.pid, "vote": st.vote}, true)
+				x.sendVote(m)
+			case 'E':
+				x.endBlock()
+			}
+		}
+		out.Count("script." + sc.name)
 	}
 }
